@@ -214,9 +214,9 @@ def Deribit.specPayoff (e : Int) (fee : Rat) (kind : Kind) (amount strike S mark
     if gross ≤ fee then 0 else gross - fee
   else 0
 
-/-- **intrinsic payoff net of delivery fee, any configuration, under the guard** (exact arithmetic): a position whose quote has a
-    nonzero underlying is credited the property's formula with the configuration's own rounding exponent and delivery fee rate -/
-theorem C16_payoff_formula (c : TokenCfg) (s : DState) (p : Position) (hS : (settleQuote s p.name).under ≠ 0) :
+/-- the model's credited amount against the formula WITHOUT the guard: at `S = 0` both sides are what `Rat`'s total division makes of
+    them — a statement about the model only.  The property-level statements below carry the guard. -/
+theorem Deribit.netPayoff_eq_specPayoff (c : TokenCfg) (s : DState) (p : Position) :
     netPayoff c s p =
       Deribit.specPayoff c.feeExp c.deliveryFee p.kind p.amount p.strike (settleQuote s p.name).under (settleQuote s p.name).mark := by
   have hm : maxFeeRate = 125 / 1000 := C16_constants.2.2.1
@@ -261,6 +261,13 @@ theorem C16_payoff_formula (c : TokenCfg) (s : DState) (p : Position) (hS : (set
     · have hgt : ¬ p.strike > (settleQuote s p.name).under := hlt
       simp [hgt, hlt]
 
+/-- **intrinsic payoff net of delivery fee, any configuration, under the guard** (exact arithmetic): a position whose quote has a
+    nonzero underlying is credited the property's formula with the configuration's own rounding exponent and delivery fee rate -/
+theorem C16_payoff_formula (c : TokenCfg) (s : DState) (p : Position) (_hS : (settleQuote s p.name).under ≠ 0) :
+    netPayoff c s p =
+      Deribit.specPayoff c.feeExp c.deliveryFee p.kind p.amount p.strike (settleQuote s p.name).under (settleQuote s p.name).mark :=
+  Deribit.netPayoff_eq_specPayoff c s p
+
 /-- the constants of the BTC configuration -/
 theorem C16_constants_btc : btcCfg.deliveryFee = 15 / 100000 ∧ btcCfg.feeExp = -8 ∧ Gen.deribitBtcMinFeeDecimal = -8 := by
   refine ⟨C16_constants.2.1, rfl, rfl⟩
@@ -295,6 +302,49 @@ theorem C16_settles_exactly_the_due_positions_guarded (cx : DCtx) (c : TokenCfg)
     (updateE cx c s).2.positions = s.positions.filter (fun kp => decide (s.now < kp.2.expiry)) := by
   rw [(C16_update_total_iff_guard cx c s).2.1 (fun _ => hG)]
   exact ⟨rfl, C16_settles_exactly_the_due_positions cx c s hg hn⟩
+
+/-- **cash moves by exactly the property's payoffs** (exact arithmetic): on an on-grid bar, under the guard, the code's `update()`
+    returns normally and adds, for every due position, the property's formula — `round(contracts × |S − K| / S)` less the rounded
+    delivery fee, or nothing — evaluated with a nonzero `S` wherever it divides (a due position that is out of the money is paid
+    nothing whatever its quote) -/
+theorem C16_cash_moves_by_the_formula (c : TokenCfg) (s : DState) (hg : s.onGrid = true) (hG : Deribit.SettleGuard s) :
+    (updateE DCtx.exact c s).1 = .ok .unit ∧
+    (updateE DCtx.exact c s).2.cash =
+      s.cash + ((s.positions.filter (fun kp => due s kp.2)).map (fun kp =>
+        Deribit.specPayoff c.feeExp c.deliveryFee kp.2.kind kp.2.amount kp.2.strike (settleQuote s kp.2.name).under
+          (settleQuote s kp.2.name).mark)).sum ∧
+    (∀ kp ∈ s.positions.filter (fun kp => due s kp.2),
+      (settleQuote s kp.2.name).under ≠ 0 ∨
+        Deribit.specPayoff c.feeExp c.deliveryFee kp.2.kind kp.2.amount kp.2.strike (settleQuote s kp.2.name).under
+          (settleQuote s kp.2.name).mark = 0) := by
+  obtain ⟨h1, h2⟩ := C16_cash_moves_by_payoffs c s (fun _ => hG)
+  refine ⟨h1, ?_, ?_⟩
+  · rw [h2, if_pos hg]
+    congr 2
+    apply List.map_congr_left
+    intro kp _
+    exact Deribit.netPayoff_eq_specPayoff c s kp.2
+  · intro kp hkp
+    obtain ⟨hmem, hdue⟩ := List.mem_filter.mp hkp
+    by_cases h0 : (settleQuote s kp.2.name).under = 0
+    · right
+      have hnot : ¬ (itm kp.2 (settleQuote s kp.2.name).under).isSome = true := fun hi =>
+        hG kp hmem (by simpa [due] using hdue) hi h0
+      unfold Deribit.specPayoff
+      unfold itm at hnot
+      cases hk : kp.2.kind with
+      | call =>
+        rw [hk] at hnot
+        by_cases hlt : kp.2.strike < (settleQuote s kp.2.name).under
+        · simp [hlt] at hnot
+        · simp [hlt]
+      | put =>
+        rw [hk] at hnot
+        by_cases hlt : kp.2.strike > (settleQuote s kp.2.name).under
+        · simp [hlt] at hnot
+        · have : ¬ (settleQuote s kp.2.name).under < kp.2.strike := hlt
+          simp [this]
+    · exact Or.inl h0
 
 /-! ### non-vacuity -/
 
